@@ -422,4 +422,183 @@ example : isFltT (Json.numConv "1.5".toUTF8.toList) "1.5" ∧ isIntV (Json.numCo
     isFltT (Json.numConv "1.2345678901234567e-05".toUTF8.toList) "1.2345678901234567e-5" ∧
     isBigT (Json.numConv "0.00012345678901234567".toUTF8.toList) "0.00012345678901234567" := by decide +kernel
 
+/-! ## the integers at the int64 limit -/
+
+/-- what comes back for an integer: the int64 itself below the limit of the integer fast loop; from
+9223372036854775800 on (the fast loop goes over to text one digit early: known finding C03sen-int19) and for
+-9223372036854775808 a `json.Number` with the same digits -/
+def nvInt (i : Int) : JV :=
+  if -9223372036854775808 < i ∧ i < 9223372036854775800 then .int i else .big (fmtInt i)
+
+/-- `922337203685477580` = `math.MaxInt64 / 10`: the first 18 digits of every integer at the limit -/
+def P18 : Bytes := [57, 50, 50, 51, 51, 55, 50, 48, 51, 54, 56, 53, 52, 55, 55, 53, 56, 48]
+
+theorem fmtNat_edge : ∀ k : Fin 9, fmtNat (9223372036854775800 + k.val) = P18 ++ [UInt8.ofNat (48 + k.val)] := by
+  decide +kernel
+
+/-- `FillBig` of an accumulator that holds 922337203685477580 -/
+theorem fillBig_edge (n : Num) (neg : Bool) (h : NumOK n neg 922337203685477580) :
+    n.fillBig = { n with big := (if neg then [45] else []) ++ P18 } := by
+  obtain ⟨h1, h2, h3, h4, h5⟩ := h
+  have hd : ¬ ((1 : UInt64) < n.div) := by rw [h3]; decide
+  have he : ¬ ((0 : UInt64) < n.exp) := by rw [h4]; decide
+  unfold Num.fillBig
+  simp only [h1, h2, h5, hd, he, ↓reduceIte, List.nil_append]
+  have : fmtNat 922337203685477580 = P18 := by decide +kernel
+  rw [this]
+
+/-- the digit after 922337203685477580 inside the integer fast loop: the number goes over to text -/
+theorem step_fastEdge (st : St) (f : Fast) (d : UInt8) (l : Bool) (hm : st.mode = .digit) (hf : f.nlSkipping = false)
+    (hfast : f.inFast = true) (hd : isDigitB d) (hn : NumOK st.num false 922337203685477580) :
+    ∃ s', (∀ l, step refTables {} st f d l = .ok (s', { inFast := false, tokFast := f.tokFast, nlSkipping := false }, false)) ∧
+      s'.mode = .digit ∧ s'.num = { st.num with big := P18 ++ [d] } ∧ s'.starts = st.starts ∧ s'.stack = st.stack ∧
+      s'.docs = st.docs ∧ s'.plus = st.plus := by
+  have hact := digit_numDigit d hd
+  have hle : BigLimit ≤ st.num.i := by
+    rw [UInt64.le_iff_toNat_le, hn.2.1]; decide
+  have hfb := fillBig_edge st.num false hn
+  have hadd : st.num.fillBig.addDigit d = { st.num with big := P18 ++ [d] } := by
+    rw [hfb]
+    simp [Num.addDigit, P18]
+  let ft : List Char := if st.num.i.toNat * 10 + (d - 48).toNat ≤ 9223372036854775807 then (st.addFeat 'i').feat else st.feat
+  let s' : St := { st with num := st.num.fillBig.addDigit d, feat := ft }
+  refine ⟨s', ?_, hm, hadd, rfl, rfl, rfl, rfl⟩
+  intro l
+  simp [step, stepCore, stepAct, stepActP, nextFast, deliver, refTables, expectedFin, hm, hf, hact, hle, hfast, s', ft]
+
+/-- a digit outside the fast loop is `AddDigit` -/
+theorem step_slowDigit (st : St) (f : Fast) (d : UInt8) (l : Bool) (hm : st.mode = .digit) (hf : f.nlSkipping = false)
+    (hfast : f.inFast = false) (hd : isDigitB d) :
+    step refTables {} st f d l = .ok ({ st with num := st.num.addDigit d },
+      { inFast := false, tokFast := f.tokFast, nlSkipping := false }, false) := by
+  have hact := digit_numDigit d hd
+  simp [step, stepCore, stepAct, stepActP, nextFast, deliver, refTables, expectedFin, hm, hf, hact, hfast]
+
+def T17 : Bytes := [50, 50, 51, 51, 55, 50, 48, 51, 54, 56, 53, 52, 55, 55, 53, 56, 48]
+
+theorem P18_eq : P18 = 57 :: T17 := rfl
+theorem T17_digits : ∀ d ∈ T17, isDigitB d :=
+  Json.isDigitB_of_dig (show ∀ d ∈ T17, Json.Spec.isDigit d = true by decide)
+theorem T17_val : T17.foldl (fun a b => a * 10 + dval b) (dval 57) = 922337203685477580 := by decide +kernel
+
+theorem edge_text (m : Nat) (hm : 9223372036854775800 ≤ m ∧ m ≤ 9223372036854775808) :
+    ∃ k : Nat, k ≤ 8 ∧ m = 9223372036854775800 + k ∧ fmtNat m = P18 ++ [UInt8.ofNat (48 + k)] := by
+  refine ⟨m - 9223372036854775800, by omega, by omega, ?_⟩
+  have h := fmtNat_edge ⟨m - 9223372036854775800, by omega⟩
+  have e : 9223372036854775800 + (m - 9223372036854775800) = m := by omega
+  simp only [e] at h
+  exact h
+
+theorem edge_digit (k : Nat) (hk : k ≤ 8) : isDigitB (UInt8.ofNat (48 + k)) := by
+  have : ∀ j : Fin 9, isDigitB (UInt8.ofNat (48 + j.val)) := by unfold isDigitB; decide
+  exact this ⟨k, by omega⟩
+
+local macro "edge_int" : tactic =>
+  `(tactic| (
+    simp only [Num.addDigit, List.length_nil, Nat.lt_irrefl, ↓reduceIte,
+      show ((922337203685477580 : UInt64) ≤ BigLimit) = True by decide]
+    first
+      | (rw [if_neg (by decide)]
+         simp only [Num.asNum, List.length_nil, Nat.lt_irrefl, ↓reduceIte, Bool.and_self, Json.NumRes.toJV]
+         rfl)
+      | (rw [if_pos (by decide)]
+         simp only [Num.asNum, Num.fillBig]
+         rfl)))
+
+/-- `AsNum` after the last digit of a negative integer at the limit: an int64 down to -9223372036854775807, the text
+for -9223372036854775808 (`AddDigit` goes over to text when the value no longer fits) -/
+theorem asNum_edge_neg (fr : UInt64) (ne : Bool) (k : Nat) (hk : k ≤ 8) :
+    (({ i := 922337203685477580, frac := fr, div := 1, exp := 0, neg := true, negExp := ne, big := [] } : Num).addDigit
+      (UInt8.ofNat (48 + k))).asNum.toJV = nvInt (-(9223372036854775800 + (k : Int))) := by
+  match k, hk with
+  | 0, _ => edge_int
+  | 1, _ => edge_int
+  | 2, _ => edge_int
+  | 3, _ => edge_int
+  | 4, _ => edge_int
+  | 5, _ => edge_int
+  | 6, _ => edge_int
+  | 7, _ => edge_int
+  | 8, _ => edge_int
+  | n + 9, h => omega
+
+theorem num_of_NumOK (n : Num) (neg : Bool) (h : NumOK n neg 922337203685477580) :
+    n = { i := 922337203685477580, frac := n.frac, div := 1, exp := 0, neg := neg, negExp := n.negExp, big := [] } := by
+  obtain ⟨h1, h2, h3, h4, h5⟩ := h
+  have hi : n.i = 922337203685477580 := by
+    apply UInt64.toNat_inj.mp
+    rw [h2]; rfl
+  cases n
+  simp_all
+
+/-- what `edge_run` says about the state after the digits -/
+def EdgeEnd (st st' : St) (f' : Fast) (i : Int) : Prop :=
+  st'.mode = .digit ∧ st'.num.asNum.toJV = nvInt i ∧ st'.starts = st.starts ∧ st'.stack = st.stack ∧ st'.docs = st.docs ∧
+  st'.plus = st.plus ∧ f'.nlSkipping = false
+
+/-- **the integers at the int64 limit**, positive: 9223372036854775800 … 9223372036854775807 come back as a
+`json.Number` with the same digits (the integer fast loop goes over to text when `BigLimit <= I`) -/
+theorem edge_run_pos (k : Nat) (hk : k ≤ 8) (st : St) (f : Fast) (p : Pos) (rest : Bytes) (hm : st.mode = .value)
+    (hf : f.nlSkipping = false) :
+    ∃ st' f' p', runBytes refTables {} st f p ((P18 ++ [UInt8.ofNat (48 + k)]) ++ rest) = runBytes refTables {} st' f' p' rest ∧
+      st'.mode = .digit ∧ st'.num.asNum.toJV = .big (P18 ++ [UInt8.ofNat (48 + k)]) ∧ st'.starts = st.starts ∧
+      st'.stack = st.stack ∧ st'.docs = st.docs ∧ st'.plus = st.plus ∧ f'.nlSkipping = false := by
+  have hdk := edge_digit k hk
+  let s1 : St := { st with mode := .digit, num := { st.num.reset with i := ((57 : UInt8) - 48).toUInt64 } }
+  have e1 : ∀ l, step refTables {} st f 57 l =
+      .ok (s1, { inFast := true, tokFast := f.tokFast, nlSkipping := false }, false) :=
+    fun l => step_valDigit st f 57 l hm hf (by decide)
+  have hok1 : NumOK s1.num false (dval 57) := ⟨rfl, Json.digit_toUInt64 57 (by unfold isDigitB; decide), rfl, rfl, rfl⟩
+  obtain ⟨f2, p2, hrun2, hf2, hn2, hi2, _⟩ := digits_run_acc T17 s1 { inFast := true, tokFast := f.tokFast, nlSkipping := false }
+    (p.next false) (UInt8.ofNat (48 + k) :: rest) false (dval 57) rfl rfl T17_digits hok1 (by rw [T17_val]; decide)
+  rw [T17_val] at hn2
+  obtain ⟨n2, hn2def⟩ : ∃ n2, n2 = T17.foldl Num.addDigit s1.num := ⟨_, rfl⟩
+  rw [← hn2def] at hrun2 hn2
+  obtain ⟨s3, hstep3, m3, n3, a3, b3, c3, d3⟩ := step_fastEdge ({ s1 with num := n2 } : St) f2
+    (UInt8.ofNat (48 + k)) true rfl hf2 (by rw [hi2]) hdk hn2
+  refine ⟨s3, { inFast := false, tokFast := f2.tokFast, nlSkipping := false }, p2.next false, ?_, m3, ?_, a3, b3, c3, d3, rfl⟩
+  · rw [P18_eq]
+    simp only [List.cons_append, List.append_assoc, List.nil_append, List.singleton_append]
+    rw [runBytes_cons_ok {} e1, hrun2]
+    exact runBytes_cons_ok {} hstep3
+  · rw [n3]
+    simp [Num.asNum, P18, Json.NumRes.toJV]
+
+/-- negative: -9223372036854775800 … -9223372036854775807 come back as int64 (the fast loop is only entered from a
+first digit without sign), -9223372036854775808 as a `json.Number` -/
+theorem edge_run_neg (k : Nat) (hk : k ≤ 8) (st : St) (f : Fast) (p : Pos) (rest : Bytes) (hm : st.mode = .value)
+    (hf : f.nlSkipping = false) :
+    ∃ st' f' p', runBytes refTables {} st f p ((45 :: (P18 ++ [UInt8.ofNat (48 + k)])) ++ rest) = runBytes refTables {} st' f' p' rest ∧
+      st'.mode = .digit ∧ st'.num.asNum.toJV = nvInt (-(9223372036854775800 + (k : Int))) ∧ st'.starts = st.starts ∧
+      st'.stack = st.stack ∧ st'.docs = st.docs ∧ st'.plus = st.plus ∧ f'.nlSkipping = false := by
+  have hdk := edge_digit k hk
+  let s1 : St := { st with mode := .neg, num := { st.num.reset with neg := true } }
+  have e1 : ∀ l, step refTables {} st f 45 l = .ok (s1, fS f, false) := fun l => step_valNeg st f l hm hf
+  let s2 : St := { s1 with num := s1.num.addDigit 57, mode := .digit }
+  have e2 : ∀ l, step refTables {} s1 (fS f) 57 l = .ok (s2, fS (fS f), false) :=
+    fun l => step_negDigit s1 (fS f) 57 l rfl rfl (by decide)
+  have hok1 : NumOK s1.num true 0 := ⟨rfl, rfl, rfl, rfl, rfl⟩
+  obtain ⟨hok2, hadd, _⟩ := NumOK_digit s1.num true 0 57 hok1 (by omega) (by unfold isDigitB; decide)
+  have hok2' : NumOK s2.num true (dval 57) := by
+    show NumOK (s1.num.addDigit 57) true (dval 57)
+    rw [hadd]; simpa using hok2
+  obtain ⟨f3, p3, hrun3, hf3, hn3, hi3, _⟩ := digits_run_acc T17 s2 (fS (fS f)) ((p.next false).next false)
+    (UInt8.ofNat (48 + k) :: rest) true (dval 57) rfl rfl T17_digits hok2' (by rw [T17_val]; decide)
+  rw [T17_val] at hn3
+  obtain ⟨n3, hn3def⟩ : ∃ n3, n3 = T17.foldl Num.addDigit s2.num := ⟨_, rfl⟩
+  rw [← hn3def] at hrun3 hn3
+  let s3 : St := { s2 with num := n3 }
+  have e4 : ∀ l, step refTables {} s3 f3 (UInt8.ofNat (48 + k)) l =
+      .ok ({ s3 with num := s3.num.addDigit (UInt8.ofNat (48 + k)) }, { inFast := false, tokFast := f3.tokFast, nlSkipping := false }, false) :=
+    fun l => step_slowDigit s3 f3 _ l rfl hf3 (by rw [hi3]; rfl) hdk
+  refine ⟨{ s3 with num := s3.num.addDigit (UInt8.ofNat (48 + k)) }, { inFast := false, tokFast := f3.tokFast, nlSkipping := false },
+    p3.next false, ?_, rfl, ?_, rfl, rfl, rfl, rfl, rfl⟩
+  · rw [P18_eq]
+    simp only [List.cons_append, List.append_assoc, List.nil_append, List.singleton_append]
+    rw [runBytes_cons_ok {} e1, runBytes_cons_ok {} e2, hrun3]
+    exact runBytes_cons_ok {} e4
+  · show (s3.num.addDigit (UInt8.ofNat (48 + k))).asNum.toJV = _
+    rw [num_of_NumOK s3.num true hn3]
+    exact asNum_edge_neg _ _ k hk
+
 end OjgVerif.Sen
